@@ -224,9 +224,9 @@ for prog, nm, pq, pt in ((1, "login-vs-session", 2, -1), (2, "plus-other-session
                        prog, " || two events of another session" if prog in (2, 4) else "", " || both cleanup calls" if prog in (3, 4) else "", pq, "unbounded" if pt < 0 else pt)))
 write("C03", c03, ["the sequential reference is computed by the same harness on fresh trackers for every order of the same deliveries; observations = emissions in order with session, action and identity, plus a probe event that exposes the residual state",
                    "cleanup cut-offs are far in the past or far in the future, so the outcome of a run does not depend on exact clock readings",
-                   "code between two synchronisation operations runs atomically in the engine; data-race freedom itself is NOT decided here (no happens-before detector in the engine) - that half of the statement is outside this check",
+                   "code between two synchronisation operations runs atomically in the engine; that abstraction is justified by the vector-clock happens-before detector (race.go) that runs on every heap cell and map access of these programs - a race is obligation 'norace'",
                    "stubs: sync.Mutex as an engine object (every Lock is a schedule point), zap, uuid, time.Now"],
-      ["more than one login or more than two sessions in flight", "weak-memory effects", "the 'no data race' clause (needs the race detector, i.e. a different technique)"], site_prefix="c03.")
+      ["more than one login or more than two sessions in flight", "weak-memory effects (Go's memory model gives SC for race-free programs)"], site_prefix="c03.")
 
 # ---- C07
 write("C07", [run("sshd-framing", SL, "VerifC07SyslogFraming", q({"M": 6}, preempt=0), t({"M": 12}, preempt=0), reach=["c07.sshd.delivered"],
